@@ -256,6 +256,7 @@ func c16Ctx(env *c16Env) *plush.Context {
 		return v
 	})
 	ctx.Set("ident", func(x interface{}) interface{} { return x })
+	ctx.Set("mm", map[string]interface{}{"present": 1})
 	ctx.Set("xs", []interface{}{"x0", "x1", "x2", "x3", "x4", "x5", "x6", "x7", "x8", "x9"})
 	return ctx
 }
@@ -449,6 +450,17 @@ func c16Run(b *core.B) {
 		{"two-functions-through-one-parameter-in-loop", `<% let ap = fn(g, x) { return g(x) } %><% let inc = fn(n) { return n + 1 } %><% let dbl = fn(n) { return n * 2 } %><%= for (h) in [inc, dbl, inc] { %><%= ap(h, 5) %>,<% } %>`, "6,10,6,"},
 		{"same-function-nested-in-second-argument", `<% let pick = fn(a, b) { if (a > b) { return a } return b } %><%= pick(9, pick(2, 3)) %>|<%= pick(pick(2, 3), 9) %>|<%= pick(1, pick(2, pick(7, 3))) %>`, "9|9|7"},
 		{"same-function-nested-keeps-first-argument", `<% let first = fn(a, b) { return a } %><%= first("x", first("y", "z")) %>`, "x"},
+		{"nil-argument-shadows-outer-name", `<% let p = "outer" %><% let f = fn(p) { if (p) { return "saw:" + p } return "nil" } %><%= f(nil) %>|<%= f(mm["absent"]) %>|<%= f("x") %>|<%= p %>`, "nil|nil|saw:x|outer"},
+		{"nil-argument-in-nested-call", `<% let q = "Q" %><% let g = fn(q) { return q == nil } %><% let f = fn(q) { return g(nil) } %><%= f("a") %>|<%= g(q) %>`, "true|false"},
+		{"body-assigns-to-its-parameter", `<% let n = 5 %><% let dec = fn(n) { n = n - 1
+ return n } %><%= dec(n) %>/<%= n %>/<%= dec(n) %>/<%= n %>`, "4/5/4/5"},
+		{"recursive-body-assigns-to-its-parameter", `<% let nest = fn(depth) { if (depth > 3) { return "" }
+ let me = depth
+ depth = depth + 1
+ return "(" + me + nest(depth) + ")" } %><%= nest(1) %>`, "(1(2(3)))"},
+		{"argument-named-like-the-parameter", `<% let x = "caller" %><% let show = fn(x) { return "[" + x + "]" } %><%= show(x) %><%= show("lit") %><%= show(x) %>`, "[caller][lit][caller]"},
+		{"body-let-shadows-parameter", `<% let f = fn(a) { let a = a + 1
+ return a } %><% let a = 10 %><%= f(a) %>,<%= a %>,<%= f(1) %>`, "11,10,2"},
 		{"rebinding-a-function-name", `<% let f = fn(n) { return n + 1 } %><%= f(1) %><% let f = fn(n) { return n + 100 } %>|<%= f(1) %>`, "2|101"},
 		{"function-values-in-a-hash-called-in-turn", `<% let a = fn(n) { return "a" + n } %><% let b = fn(n) { return "b" + n } %><% let h = {x: a, y: b} %><% let g = h["x"] %><%= g(1) %><% g = h["y"] %><%= g(2) %>`, "a1b2"},
 	}
